@@ -42,9 +42,61 @@ func (runInfo *runInfoStruct) invokeLetExpr() {
 
 }
 
+// freezeOperands evaluates the operands of a container expression that is itself
+// an index or member expression (the a[i] of a[i][j] = v, the a[i] of a[i].k = v)
+// and returns the same expression over those values. The container is read
+// through it, and a store that has to put a new container back (an append at
+// index len, the first entry of a nil map, a string element) writes through it
+// too, so every operand is evaluated exactly once.
+func (runInfo *runInfoStruct) freezeOperands(expr ast.Expr) (ast.Expr, bool) {
+	switch expr := expr.(type) {
+	case *ast.ItemExpr:
+		runInfo.expr = expr.Item
+		runInfo.invokeExpr()
+		if runInfo.err != nil {
+			return nil, false
+		}
+		frozen := *expr
+		frozen.Item = &ast.LiteralExpr{Literal: runInfo.rv}
+		runInfo.expr = expr.Index
+		runInfo.invokeExpr()
+		if runInfo.err != nil {
+			return nil, false
+		}
+		frozen.Index = &ast.LiteralExpr{Literal: runInfo.rv}
+		return &frozen, true
+	case *ast.MemberExpr:
+		runInfo.expr = expr.Expr
+		runInfo.invokeExpr()
+		if runInfo.err != nil {
+			return nil, false
+		}
+		frozen := *expr
+		frozen.Expr = &ast.LiteralExpr{Literal: runInfo.rv}
+		return &frozen, true
+	case *ast.ParenExpr:
+		sub, ok := runInfo.freezeOperands(expr.SubExpr)
+		if !ok {
+			return nil, false
+		}
+		frozen := *expr
+		frozen.SubExpr = sub
+		return &frozen, true
+	}
+	return expr, false
+}
+
 // invokeLetMemberExpr assigns a value to a member expression.
 func (runInfo *runInfoStruct) invokeLetMemberExpr(expr *ast.MemberExpr) {
 	value := runInfo.rv
+
+	if container, frozen := runInfo.freezeOperands(expr.Expr); runInfo.err != nil {
+		return
+	} else if frozen {
+		member := *expr
+		member.Expr = container
+		expr = &member
+	}
 
 	runInfo.expr = expr.Expr
 	runInfo.invokeExpr()
@@ -148,6 +200,14 @@ func (runInfo *runInfoStruct) invokeLetMemberExpr(expr *ast.MemberExpr) {
 // invokeLetItemExpr assigns a value to an index expression.
 func (runInfo *runInfoStruct) invokeLetItemExpr(expr *ast.ItemExpr) {
 	value := runInfo.rv
+
+	if container, frozen := runInfo.freezeOperands(expr.Item); runInfo.err != nil {
+		return
+	} else if frozen {
+		item := *expr
+		item.Item = container
+		expr = &item
+	}
 
 	runInfo.expr = expr.Item
 	runInfo.invokeExpr()
@@ -339,6 +399,14 @@ func (runInfo *runInfoStruct) invokeLetItemString(expr *ast.ItemExpr, item refle
 // invokeLetSliceExpr assigns a value to a slice expression.
 func (runInfo *runInfoStruct) invokeLetSliceExpr(expr *ast.SliceExpr) {
 	value := runInfo.rv
+
+	if container, frozen := runInfo.freezeOperands(expr.Item); runInfo.err != nil {
+		return
+	} else if frozen {
+		slice := *expr
+		slice.Item = container
+		expr = &slice
+	}
 
 	runInfo.expr = expr.Item
 	runInfo.invokeExpr()
